@@ -19,13 +19,20 @@
        serialisation of a PngData that the specification decodes to the INPUT FILE's picture
        (C01_file_to_file_partial; hypotheses: the zlib oracle, container side conditions on
        the written chunks, image size within usize, colour key within the sample range).
+   (5) THE FULL STATEMENT on the model (C01_file_to_file): the container side conditions are DERIVED from the input
+       (from_slice's chunks and frames are bounded by the input length, preprocess / postprocess keep that, the key chunks and
+       the frame chunks are well-formed, the colour key fits): for a valid input file shorter than 2^31 - 9 bytes,
+       optimize_from_memory e o bytes = Ok out  ->  spec_decode_png inflate out = Some pic,
+       under the zlib oracle only (inflate o deflate = id, the code's inflate is the specification's, the compressor
+       never returns 2 GiB) and validity of the input (one IHDR, at most one PLTE / tRNS, key within the sample range,
+       size within usize).
    Everything assumed is exercised on every run by the correspondence check and the specification oracle. *)
 From OxiVerif Require Import Base.Common Spec.Filter Spec.Adam7 Spec.Sem Model.Types Model.Options Model.BitDepth
   Model.ScanLines Model.Filters Model.Color Model.Palette Model.Reductions Model.Evaluate Model.Optimize
   Proofs.Bridge Proofs.PixelProofs Proofs.FilterProofs Proofs.ImageLift Proofs.LiftReductions Proofs.LiftColor
   Proofs.LiftPalette Proofs.LiftLines Proofs.LiftBits Proofs.LiftInterlace Proofs.LiftDeinterlace Proofs.CoocMatrix Proofs.LiftMzeng Proofs.BattiatoLoop Proofs.LiftBattiato Proofs.PipelineLossless Proofs.FilterStream Proofs.EmittedStream.
 From OxiVerif Require Import Model.Interlace.
-From OxiVerif Require Import Spec.Decode Spec.DecodeFile Model.Headers Model.PngData Proofs.OutputProofs Proofs.OutputDecode Proofs.FileLevel Proofs.UnfilterImage Proofs.InputParse Proofs.FileToFile.
+From OxiVerif Require Import Spec.Decode Spec.DecodeFile Model.Headers Model.PngData Proofs.OutputProofs Proofs.OutputDecode Proofs.FileLevel Proofs.UnfilterImage Proofs.InputParse Proofs.FileToFile Proofs.ContainerOk.
 
 (* 16 -> 8 bit reduction: every pixel (samples whose two bytes are equal) keeps its exact RGBA
    value, colour key included (this is the statement that was false before fix 13ac031) *)
@@ -302,3 +309,21 @@ Theorem C01_image_battiato : forall img r pic, wf img -> sem img = Some pic ->
   sorted_palette_battiato img = Ok (Some r) -> sem r = Some pic /\ wf r.
 Proof. exact sorted_palette_battiato_sem. Qed.
 Print Assumptions C01_image_battiato.
+
+(* THE FULL STATEMENT of C01 on the model: no side condition on what is written - it is derived from the input *)
+Theorem C01_file_to_file : forall e o (inflate : list Z -> option (list Z)) bytes out pic nm ih rest M,
+  optimize_alpha o = false -> scale_16 o = false ->
+  bytes_ok bytes -> lenZ bytes + 5 <= M -> M + 4 < 2 ^ 31 -> (forall d s, lenZ (z_deflate e d s) <= M) ->
+  spec_parse_png bytes = Some ((nm, ih) :: rest) ->
+  spec_decode_chunks inflate ((nm, ih) :: rest) = Some pic ->
+  List.filter (named spec_IHDR) rest = [] ->
+  (length (List.filter (named spec_PLTE) rest) <= 1)%nat -> (length (List.filter (named spec_tRNS) rest) <= 1)%nat ->
+  (forall x n y, z_inflate e x n = Ok y -> inflate x = Some y /\ bytes_ok y) ->
+  (forall d s, inflate (z_deflate e d s) = Some s) ->
+  (forall p, from_slice e bytes o = Ok p ->
+     spec_raw_size (width (hdr (raw p))) (height (hdr (raw p))) (bpp (hdr (raw p))) (interlaced (hdr (raw p))) true <= usize_max /\
+     wf_ctype (ctype (hdr (raw p))) (depth (hdr (raw p)))) ->
+  optimize_from_memory e o bytes = Ok out ->
+  spec_decode_png inflate out = Some pic.
+Proof. exact optimize_from_memory_lossless. Qed.
+Print Assumptions C01_file_to_file.
